@@ -106,6 +106,16 @@ FIRST.update({
  "C10d": ("missed", "C10 clause value_taken_from_positions_the_end_checks_cannot_see_counts_as_seized; recv driver: isolated-tier and zero-initial-weight deposits, receiver withdrawals from them"),
  "C14d": ("missed", "liq driver: an acceptable liquidation retried with the liability / collateral bank paused and reduce-only (recorded forks)"),
 })
+FIRST.update({
+ "C05c": ("missed", "C05 clause health_before_assessed_on_usable_prices_of_every_holding / C09 liquidation_assessment_needs_every_holding_priced; liq driver: second collateral bank whose price turns stale, unauthentic or is substituted while it alone keeps the account healthy (recorded forks)"),
+ "C11c": ("missed", "TxShape symbols with end-index arguments 2^16+k, 2^32+1, 2^64-1 (FlashW instance); C11 start clause refuses them"),
+ "C12d": ("missed", "C12 daily window reckoned from event times instead of the program's own stamp; admin driver: limit left idle for days, then a clean burst whose parts stay below the limit"),
+ "C15c": ("missed", "C15 clause c_reset_events_24h_apart (resets located by the step at which they happen, not by the stored stamp); Panic model emits the predicted state (drift on the stored stamp); panic driver bursts after a quiet stretch that is not a whole number of days"),
+ "C16f": ("missed", "struct driver: liquidator holding two or three positions and none in either liquidation bank; every order of its remaining accounts is tried when the canonical one is refused"),
+ "C18d": ("missed", "Curve model families with four and five used point slots; curve driver: one defect at a random position of an otherwise valid curve"),
+ "C19e": ("missed", "reference and harness take the fee wallet from the fee state (they had followed the group's cached copy, like the change); admin driver rotates the fee wallet and collects before / after propagation"),
+ "C19f": ("missed", "C19 clause emissions_credited_in_full_for_size_time_rate (lower bound, position valued on its own side)"),
+})
 for d in sorted(os.listdir(os.path.join(ROOT, "seeded"))):
     mp = os.path.join(ROOT, "seeded", d, "meta.json")
     rp = os.path.join(ROOT, "seeded", d, "result.txt")
